@@ -94,7 +94,8 @@ class IPv4FlowSpec(NLRI):
             nlri_tmp += struct.pack('!B', type_tmp) + cls.construct_operators(data[type_tmp])
 
         if len(nlri_tmp) >= 240:
-            return struct.pack('!H', len(nlri_tmp)) + nlri_tmp
+            # 2-octet length: the high nibble of the first octet is 0xf
+            return struct.pack('!H', 0xf000 | len(nlri_tmp)) + nlri_tmp
         elif nlri_tmp:
             return struct.pack('!B', len(nlri_tmp)) + nlri_tmp
 
